@@ -178,6 +178,7 @@ const (
 )
 
 var decimalRe = regexp.MustCompile(`^[+-]?[0-9]+$`)
+var scientificRe = regexp.MustCompile(`^[+-]?[0-9]+(\.[0-9]*)?([eE][+-]?[0-9]{1,3})?$`)
 
 func floorDivBig(a *big.Int, b int64) (q, m *big.Int) {
 	q, m = new(big.Int).DivMod(a, big.NewInt(b), new(big.Int)) // Euclidean; b > 0 => floor
@@ -275,6 +276,13 @@ func extract(p interface{}, t *cql) (vals []mval, subUnit bool, status int) {
 				v, ok := new(big.Int).SetString(*x, 10)
 				if ok {
 					return one(finInt(v))
+				}
+			}
+			// decimal point and/or exponent: whatever the library makes of such a string (it may refuse it), the
+			// number it denotes is not in doubt, and an accepted one must come out exactly
+			if scientificRe.MatchString(*x) {
+				if r, ok := new(big.Rat).SetString(*x); ok {
+					return one(mval{kind: kFin, r: r, neg: r.Sign() < 0})
 				}
 			}
 			return nil, false, exUnjudged
